@@ -46,6 +46,7 @@ func main() {
 	r.Register("h", func(a []string) string { return runCase(a, false) })
 	r.Register("hl", func(a []string) string { return runCase(a, true) })
 	r.Register("hw", func(a []string) string { return runCallerWrites(a) })
+	r.Register("hm", func(a []string) string { return runMalformedCase(a) })
 	r.Register("k6", func(a []string) string { return runHuntCase(a) })
 	r.Register("ka", func(a []string) string { return runHunt4Case(a) })
 	if r.Replayed() {
@@ -191,3 +192,6 @@ func runCallerWrites(a []string) string {
 		return "fuel"
 	}
 }
+
+var osGetenv = os.Getenv
+var osStderr = os.Stderr
